@@ -278,7 +278,7 @@ def _shard(arg):
     lines = []
     if placement == 'target+global+env':
         lines.append("global_options([opts.define('GLOBAL_PLAIN')], lang=%r)" % lang)
-        envx['CFLAGS' if lang == 'c' else 'CXXFLAGS'] = '-DENV_FLAG'
+        envx['CFLAGS' if lang == 'c' else 'CXXFLAGS'] = '-DENV_FLAG -O2'    # a level from the environment: the script's own option comes later and wins
     cases = []
     if placement in ('target', 'target+global+env'):
         for i, keys in enumerate(groups):
